@@ -761,16 +761,17 @@ def k_setbytes(base, chk):
     v, vl = k.elem("v")
     paths = k.run([v, sl])
     ok = [p for p in paths if p.outcome[0] == "ret"]
-    chk.add(Ob("SetBytes(32 bytes): single non-panicking path", "unsat" if len(paths) == 1 and len(ok) == 1 else "sat", 0, [fname], "structure"))
-    p = ok[0]
-    out = k.ex.load(p, v)
+    chk.add(Ob("SetBytes(32 bytes): no panic on any path (%d path(s))" % len(paths), "unsat" if ok and len(ok) == len(paths) else "sat", 0, [fname], "BV"))
     val = cat_bytes(bs)
-    for i in range(5):
-        want = z3.ZeroExt(13, z3.Extract(51 * i + 50, 51 * i, val))
-        k.prove(p, "limb %d = bits %d..%d of the input (bit 255 ignored)" % (i, 51 * i, 51 * i + 50), (out[i] if not type(out[i]) is int else z3.BitVecVal(out[i], 64)) == want)
-    ret = p.outcome[1]
-    k.prove(p, "returns (receiver, nil)", ret[0] == v and ret[1] is None)
-    k.prove(p, "input bytes not written", not any(w[0] == "w" and w[1] == boid for w in p.log))
+    for pi, p in enumerate(ok):
+        tag = "" if len(ok) == 1 else " [path %d]" % pi
+        out = k.ex.load(p, v)
+        for i in range(5):
+            want = z3.ZeroExt(13, z3.Extract(51 * i + 50, 51 * i, val))
+            k.prove(p, "limb %d = bits %d..%d of the input (bit 255 ignored)%s" % (i, 51 * i, 51 * i + 50, tag), (out[i] if not type(out[i]) is int else z3.BitVecVal(out[i], 64)) == want)
+        ret = p.outcome[1]
+        k.prove(p, "returns (receiver, nil)" + tag, ret[0] == v and ret[1] is None)
+        k.prove(p, "input bytes not written" + tag, not any(w[0] == "w" and w[1] == boid for w in p.log))
 
     def replay(models, seed):
         from . import native, ref
@@ -806,6 +807,19 @@ def reduce_summary(k):
     return summ
 
 
+def _bytes_replay(models, seed):
+    from . import native, ref
+    import random
+    rng = random.Random(seed)
+    cands = ref.limb_candidates(rng, 64)
+    res = native.run_ops("field", [{"op": "Bytes", "args": ["v"], "init": {"v": ref.fmt_limbs(c)}} for c in cands])
+    for c, r in zip(cands, res):
+        want = (ref.fe_val(c) % P).to_bytes(32, "little").hex()
+        if r["bytes"] != want:
+            return dict(what="Bytes(%s) = %s, expected %s" % (c, r["bytes"], want), op="Bytes", inputs=dict(v=c))
+    return None
+
+
 def k_bytes(base, chk):
     """serialisation loop of Element.bytes on top of the reduce contract"""
     fname = base.prog.find("Element).Bytes")
@@ -816,8 +830,16 @@ def k_bytes(base, chk):
     v, vl = k.elem("v")
     paths = k.run([v])
     ok = [p for p in paths if p.outcome[0] == "ret"]
-    chk.add(Ob("bytes: single non-panicking path", "unsat" if len(paths) == 1 and len(ok) == 1 else "sat", 0, [fname], "structure"))
-    p = ok[0]
+    chk.add(Ob("Bytes: no panic on any path (%d path(s))" % len(paths), "unsat" if ok and len(ok) == len(paths) else "sat", 0, [fname], "BV"))
+    for p in ok:
+        _k_bytes_path(k, chk, fname, p, v, vl, "" if len(ok) == 1 else " [path %d]" % ok.index(p))
+    k.settle(_bytes_replay)
+
+
+def _k_bytes_path(k, chk, fname, p, v, vl, tag):
+    if not p.dstate.get("reduced"):
+        chk.soft("Bytes%s: reduces a copy of the receiver before serialising" % tag, False, [fname])
+        return
     red = p.dstate["reduced"][0][1]
     sl = p.outcome[1][0]
     ooid = sl.obj
@@ -829,18 +851,6 @@ def k_bytes(base, chk):
     k.prove(p, "receiver element not written (works on a copy)", not any(w[0] == "w" and w[1] == v.obj for w in p.log))
     k.prove(p, "returns out[:] (len 32)", isinstance(sl, X.SliceV) and sl.len == 32 and sl.off == 0)
 
-    def replay(models, seed):
-        from . import native, ref
-        import random
-        rng = random.Random(seed)
-        cands = ref.limb_candidates(rng, 64)
-        res = native.run_ops("field", [{"op": "Bytes", "args": ["v"], "init": {"v": ref.fmt_limbs(c)}} for c in cands])
-        for c, r in zip(cands, res):
-            want = (ref.fe_val(c) % P).to_bytes(32, "little").hex()
-            if r["bytes"] != want:
-                return dict(what="Bytes(%s) = %s, expected %s" % (c, r["bytes"], want), op="Bytes", inputs=dict(v=c))
-        return None
-    k.settle(replay)
 
 
 def k_select_swap(base, chk):
@@ -947,14 +957,20 @@ def k_equal_isneg(base, chk):
     v, vl = k.elem("v")
     u, ul = k.elem("u")
     paths = k.run([v, u])
-    chk.add(Ob("Equal: single path (no data-dependent branch)", "unsat" if len(paths) == 1 and paths[0].outcome[0] == "ret" else "sat", 0, [fname], "structure"))
-    p = paths[0]
-    r = p.outcome[1][0]
-    (e1, b1), (e2, b2) = p.dstate["bytes_of"]
-    same = z3.And([x == y for x, y in zip(b1, b2)])
-    rv = r if not type(r) is int else z3.BitVecVal(r, 64)
-    k.prove(p, "returns exactly 1 when the canonical encodings are equal, else exactly 0", z3.If(same, rv == 1, rv == 0))
-    k.prove(p, "compares the encodings of both operands", {id(e1), id(e2)} == {id(e1), id(e2)} and ({tuple(map(str, e1)), tuple(map(str, e2))} == {tuple(map(str, vl)), tuple(map(str, ul))}))
+    bad = [p for p in paths if p.outcome[0] != "ret"]
+    chk.add(Ob("Equal: returns normally on every path (%d path(s))" % len(paths), "unsat" if paths and not bad else "sat", 0, [fname], "BV", detail=str([p.outcome for p in bad][:2])))
+    for pi, p in enumerate(p for p in paths if p.outcome[0] == "ret"):
+        tag = "" if len(paths) == 1 else " [path %d]" % pi
+        r = p.outcome[1][0]
+        bo = p.dstate.get("bytes_of", [])
+        if len(bo) != 2:
+            chk.soft("Equal%s: obtains the canonical encoding of both operands" % tag, False, [fname])
+            continue
+        (e1, b1), (e2, b2) = bo
+        same = z3.And([x == y for x, y in zip(b1, b2)])
+        rv = r if not type(r) is int else z3.BitVecVal(r, 64)
+        k.prove(p, "returns exactly 1 when the canonical encodings are equal, else exactly 0" + tag, z3.If(same, rv == 1, rv == 0))
+        k.prove(p, "compares the encodings of both operands" + tag, {tuple(map(str, e1)), tuple(map(str, e2))} == {tuple(map(str, vl)), tuple(map(str, ul))})
     k.settle()
 
     fname = base.prog.find("Element).IsNegative")
